@@ -40,7 +40,25 @@ def as_slice(it, v):
         return whole(v, v.kind in ('String', 'AsciiString'))
     if isinstance(v, Struct) and len(v.fields) == 1:
         return as_slice(it, v.fields[0])
+    if isinstance(v, Opaque) and v.kind == 'DecStr':
+        c = conc(v.val)
+        if c is not None:
+            return whole(Buf.from_bytes(str(c).encode(), 'String'), True)
+        raise SymbolicText(v)
     raise Unsupported('not a byte string: %r' % (v,))
+
+
+class SymbolicText(Unsupported):
+    """a decimal rendering of a symbolic integer was used where its bytes are needed"""
+
+    def __init__(self, v):
+        Unsupported.__init__(self, 'bytes of the decimal rendering of a symbolic integer are needed')
+        self.value = v
+
+
+def is_symtext(it, v):
+    v = deref(it, v)
+    return isinstance(v, Opaque) and v.kind == 'DecStr' and conc(v.val) is None
 
 
 def generic_args(text, method):
@@ -437,6 +455,8 @@ def _(it, a, info):
 def _deref(it, a, info):
     r = a[0]
     v = deref(it, r)
+    if is_symtext(it, v):
+        return v
     if isinstance(v, Buf):
         return whole(v, v.kind in ('String', 'AsciiString'))
     if isinstance(v, Slice):
@@ -490,6 +510,8 @@ def clone_val(it, v):
 @model('Into::into', 'From::from')
 def _into(it, a, info):
     v = a[0]
+    if is_symtext(it, v):
+        return deref(it, v)
     tt = info.get('trait_text') or ''
     st = info.get('self_text') or ''
     rt, rv = it.runtime_type(v) if not isinstance(v, Ref) else (None, None)
@@ -701,6 +723,8 @@ def _is_empty(it, a, info):
        'AsciiString::as_str', 'str::as_ref', 'String::as_mut_str', 'Vec::as_mut_slice')
 def _as_bytes(it, a, info):
     v = deref(it, a[0])
+    if is_symtext(it, v):
+        return v
     if isinstance(v, VecObj):
         return ListSlice(v)
     s = as_slice(it, v)
@@ -710,6 +734,11 @@ def _as_bytes(it, a, info):
 @model('String::into_bytes', 'AsciiString::into', 'String::from_utf8_unchecked')
 def _(it, a, info):
     v = a[0]
+    if isinstance(v, Opaque) and v.kind == 'DecStr':
+        c = conc(v.val)
+        if c is None:
+            return v
+        return Buf.from_bytes(str(c).encode(), 'Vec')
     if isinstance(v, Buf):
         return Buf(v.arr, v.len, v.maxlen, 'Vec' if info['method'] == 'into_bytes' else 'String')
     raise Unsupported('into_bytes of %r' % (v,))
@@ -1074,6 +1103,8 @@ def _index(it, a, info):
 @model('AsciiString::from_ascii', 'AsciiStr::from_ascii')
 def _(it, a, info):
     v = a[0]
+    if is_symtext(it, v):
+        return Ok(deref(it, v))
     s = as_slice(it, v)
     ok = z3.simplify(all_in(s, lambda c: z3.ULT(c, 128)))
     if it.ctx.branch(ok):
@@ -1492,6 +1523,9 @@ def _(it, a, info):
 @model('Write::write_all')
 def _(it, a, info):
     w = a[0]
+    if is_symtext(it, a[1]) or (isinstance(a[1], Opaque) and a[1].kind == 'HexStr'):
+        r = writer_write(it, w, deref(it, a[1]))
+        return Ok(unit()) if r.variant == 'Ok' else r
     data = as_slice(it, a[1])
     rounds = 0
     while True:
@@ -1768,4 +1802,32 @@ def _(it, a, info):
 @model('<HttpDate as From>::from')
 def _(it, a, info):
     # the Date value is an opaque 29-byte IMF-fixdate string produced by the httpdate crate (validated separately)
-    return Opaque('HttpDate', arr=it.ctx.fresh_arr('httpdate'))
+    arr = it.ctx.fresh_arr('httpdate')
+    # 29 printable ASCII bytes (IMF-fixdate); the exact text is httpdate's business (validated separately)
+    it.ctx.add(z3.And(*[z3.And(z3.UGE(z3.Select(arr, bv(i)), 0x20), z3.ULE(z3.Select(arr, bv(i)), 0x7e)) for i in range(29)]))
+    return Opaque('HttpDate', arr=arr)
+
+
+# ------------------------------------------------------------------------------ vec![a, b, ..] expansion (Box::new_uninit + write + into_vec)
+
+@model('Box::new_uninit')
+def _(it, a, info):
+    inner = Cell(Struct('MaybeUninit', [None, Struct('ManuallyDrop', [Struct('MaybeDangling', [None])])]))
+    b = Struct('Box', [Struct('Unique', [Ref(inner, (), True)])])
+    b.fields.append(inner)
+    return b
+
+
+@model('boxed::box_assume_init_into_vec_unsafe', 'box_assume_init_into_vec_unsafe')
+def _(it, a, info):
+    b = a[0]
+    inner = b.fields[0].fields[0]
+    v = it.read(inner.root, inner.path)
+    arr = v.fields[1].fields[0].fields[0]
+    if isinstance(arr, Struct) and arr.ty == '[array]':
+        items = list(arr.fields)
+        if items and all(z3.is_bv(x) and x.size() == 8 for x in items):
+            from .harness import buf_from_exprs
+            return buf_from_exprs(items, 'Vec')
+        return VecObj(items)
+    raise Unsupported('box_assume_init_into_vec_unsafe on %r' % (arr,))
